@@ -47,6 +47,7 @@ CONSTANTS
   RcCap = {RcCap}
   MaxRefs = {MaxRefs}
   Strategy = "{Strategy}"
+  ExactPool = TRUE
 VIEW view
 CONSTRAINT PoolBound
 INVARIANTS FlagsSane CleanIsDurable Accounting KeysOK CellsOK CatalogOK Limits
@@ -162,6 +163,8 @@ CONSTANTS
   RcCap = 65535
   MaxRefs = 65535
   Strategy = "ff"
+  ExactPool = TRUE
+  InvSkip = {}
 POSTCONDITION Accepted
 CHECK_DEADLOCK FALSE
 """
